@@ -1712,6 +1712,11 @@ def m_deque_pop_back(I, args, callee):
     return some(d.fields.pop()) if d.fields else none()
 
 
+def m_iter_size_hint(I, args, callee):
+    n = len(_items(I, args[0]))
+    return Agg('tuple', [usize(n), some(usize(n))])
+
+
 def m_slice_windows(I, args, callee):
     sl = as_slice(I, args[0])
     n = I.concretize(args[1], 'windows size')
@@ -1741,6 +1746,13 @@ def m_path_display(I, args, callee):
 
 
 MODELS = [
+    (r' as Iterator>::size_hint$', m_iter_size_hint),
+    (r'^<.* as (ExactSizeIterator)>::len$', m_iter_count),
+    (r'^<impl Iterator<.*> as IntoIterator>::into_iter$', m_identity),
+    (r'^<impl IntoIterator<.*> as IntoIterator>::into_iter$', m_into_iter_vec),
+    (r'^<impl Iterator<.*> as Iterator>::next$', m_pyiter_next),
+    # the native-replay switches patched into the scratch copy are off under M
+    (r'(^|::)verif_(active|cut)$', m_false),
     (r'^Vec::<.*>::drain::', m_vec_drain),
     (r'^<std::vec::Drain<.*> as Iterator>::next$', m_pyiter_next),
     (r'^<std::vec::Drain<.*> as IntoIterator>::into_iter$', m_identity),
@@ -1943,4 +1955,7 @@ MODELS = [
     (r'^<PathBuf as From<String>>::from$|^<PathBuf as From<&str>>::from$|^PathBuf::from$', m_pathbuf_from),
     (r'^Path::new::<.*>$', m_path_new),
     (r'^<PathBuf as Deref>::deref$|^PathBuf::as_path$|^<PathBuf as AsRef<Path>>::as_ref$|^<Path as AsRef<Path>>::as_ref$', m_deref_slice),
+    # last resort for iterator plumbing over our own iterator representations
+    (r' as IntoIterator>::into_iter$', m_into_iter_vec),
+    (r' as Iterator>::next$', m_pyiter_next),
 ]
